@@ -1,6 +1,7 @@
 import Model.TlsAuth
 import Model.TlsAuthSess
 import Model.TlsAuthDial
+import Model.TlsAuthHist
 import Driver.Util
 namespace Driver.C20
 open Util TlsAuth
@@ -334,6 +335,39 @@ def showDialObs (c : DialCfg) (o : DialObs) : String :=
   let co := match o.res with | .plain => "0" | .tls => "1" | _ => "-"
   s!"tcp={tcp} sni={sni} vsn={vsn} res={showDialRes o.res} coalesce-off={co}"
 
+/-! ### histories (ops `tlshist`, `tokalias`, `tokpar`) -/
+
+/-- `<cfg>:<ehv>:<ca>:<cert>:<key>`, cfg = `nil` | `I<0|1>S<0|1>` -/
+def parseHistStep (s : String) : Option SslOpts :=
+  match s.splitOn ":" with
+  | [cfg, ehv, ca, cert, key] => do
+    let cfg ← (if cfg == "nil" then some none else match cfg.toList with
+      | ['I', i, 'S', sn] => some (some { insecure := i == '1', serverName := if sn == '1' then snExample else [],
+                                           hasRootCAs := false, nCerts := 0 : UserCfg })
+      | _ => none)
+    let ehv ← parseBool ehv
+    let ca ← parseFileSt ca
+    let cert ← parseFileSt cert
+    let key ← parseFileSt key
+    pure { cfg := cfg, enableHostVerification := ehv, ca := ca, cert := cert, key := key }
+  | _ => none
+
+def showVerdict : Verdict → String
+  | .verify => "verify" | .noverify => "noverify" | .error => "error"
+
+/-- `<user>:<pass>:<allowed>:<class>` -/
+def parseChalCall (s : String) : Option ChalCall :=
+  match s.splitOn ":" with
+  | [u, p, a, c] => do
+    let u ← parseHex u
+    let p ← parseHex p
+    let a ← parseList a
+    let c ← parseHex c
+    pure ({ user := u, pass := p, allowed := a }, c)
+  | _ => none
+
+def showTok (t : Option (List UInt8)) : String := match t with | some t => "tok:" ++ toHex t | none => "none"
+
 def parseDocCfg (s : String) : Option (Option Bool) :=
   match s with
   | "nil" => some none | "false" => some (some false) | "true" => some (some true) | _ => none
@@ -480,6 +514,19 @@ def step (_ : Unit) (ws : List String) : Unit × String :=
       if m != "ns" && m != "cx" then "bad-op"
       else if (connect cfg h fs).outcome = .crash then "crash:authenticateHandshake" else "clean"
     | _, _ => "bad-op"
+  -- C20_config_history_independent: sessions created one after the other in one process from the SAME caller
+  -- tls.Config object / the SAME paths with the values changed in between; the SPECIFICATION side, per session
+  | "tlshist" :: steps => match steps.mapM parseHistStep with
+    | some os => if os.isEmpty then "bad-op" else " ".intercalate (os.map (fun o => showVerdict (Spec.sessionVerdict o)))
+    | none => "bad-op"
+  -- C20_tokens_not_aliased: every caller's token as re-read AFTER all the Challenge calls (tokalias: back to back;
+  -- tokpar: what each node received from overlapping handshakes); the SPECIFICATION side: the own PLAIN token
+  | "tokalias" :: calls => match calls.mapM parseChalCall with
+    | some cs => if cs.isEmpty then "bad-op" else " ".intercalate (cs.map (fun c => showTok (challenge c.1 c.2)))
+    | none => "bad-op"
+  | "tokpar" :: calls => match calls.mapM parseChalCall with
+    | some cs => if cs.isEmpty then "bad-op" else " ".intercalate (cs.map (fun c => showTok (challenge c.1 c.2)))
+    | none => "bad-op"
   -- C20_session_config: both Authenticator and AuthProvider ⇒ refused before anything is dialled
   | "sesscfg" :: h :: st :: pv :: fs => match parseConn h st pv, fs.mapM parseFrame with
     | some (_, cfg), some _ =>
